@@ -234,16 +234,47 @@ CLAIMED = {
              "|c|^2 sum_j exp(2 pi i k_j d / N)), circulant_diagonalised and toeplitz_embedding_exact / toeplitz_structure: with sigpy's "
              "CENTRED conventions (C09 pad/crop N <-> 2N, C05 centred orthonormal DFT of length 2N, p = centred unnormalised DFT of "
              "psf[m] = t(m - N)), R^H F^H diag(p) F R equals the Toeplitz matrix t(n - n') entry by entry (1-D). "
+             "Deepened: (1) nufft_adjoint_is_adjoint_{1,2,3}d_batch / _3d / _3d_code: the concrete pipelines in 1, 2 and 3 transform "
+             "dimensions with a leading batch axis of any length B (C09's N-d resize on the full shapes [B,N..] <-> [B,L..], "
+             "1_B (x) U_L1 (x) .. (x) U_Ld with adjointness composed axis by axis: adjScaled_one / _dft / _kron, C07's Gen.interp{1,2,3} / "
+             "Gen.grid{1,2,3} with batch_size = B, generated scalings with prodN, prodOs over the transform axes) satisfy "
+             "<nufft x, y> = <x, nufft_adjoint y> for any oversamp / width / kernel / coordinates; interp{1,2,3}_batch_diagonal (batch items "
+             "never mix); apodWeight_real / apodize3_is_real_diagonal: the weights a/sinh(a), a = (beta^2 - x^2)**0.5 (principal complex "
+             "root, also where it is imaginary) that _apodize computes are real, so the 'real weights' hypothesis holds for the code's "
+             "formula; sep_encoding{2,3} / interp{2,3}_weights_separable: the (K, wt) parametrisation of the generated rational product "
+             "weights covers every separable REAL kernel (Kaiser-Bessel) in 2-D / 3-D. (2) N-d Toeplitz: circDiag_axis / circDiag_kron "
+             "(circulant diagonalisation is inherited by Kronecker products for non-separable kernels), resizeMatNd_pad2/3, "
+             "toeplitz_embedding_exact_2d / _3d, nudft_gram_toeplitz_2d / _3d, toeplitz_structure_2d / _3d: R^H F^H diag(p) F R = A^H A of "
+             "the exact NUDFT in 2 and 3 dimensions with sigpy's centred conventions on every axis. (3) exact NUDFT reference: "
+             "nudft_periodic_coord, nudftTerm_shift / nudftOn_shift (shift covariance), nudftTerm_modulation / nudft_modulation "
+             "(modulation covariance), nudftTerm_norm / nudft_row_normSq; ERROR IDENTITY of the generated 1-D pipeline nufft1 with the "
+             "kernel as a parameter: interpLin_apply (Gen.interp1 as the explicit window sum), ufft_resize_apply, phase_split, "
+             "nufft1_eq_nudft_times_kernel: nufft(x)(k) = sum_n x_n N^-1/2 e^{-2 pi i k (n-N//2)/N} [a_n S(kappa, n-N//2)], "
+             "S = (1/W) sum_{|i-kappa|<=W/2} wt(K((i-kappa)/(W/2))) e^{-2 pi i (i-kappa) nu/L} (kernelSum; depends on kappa mod 1: "
+             "kernelSum_shift), nufft1_error_identity, nufft1_error_le, nufft1_row_error (the relative row error the oracle measures "
+             "IS sqrt(mean_n |a_n S - 1|^2)) and nufft1_row_error_le: the stated accuracy reduces to a bound on Kaiser-Bessel alone; the same "
+             "identity entry by entry for the batched 1-D pipeline (nufft1B_eq_nudft_times_kernel), the 2-D pipeline "
+             "(nufft2_eq_nudft_times_kernel, nufft2_error_identity) and the batched 3-D pipeline (nufft3B_eq_nudft_times_kernel) with the "
+             "PRODUCT of the per-axis kernel sums (separable weights: hypothesis hsep, satisfiable for arbitrary real kernels by "
+             "sep_encoding2/3), row_error_phases, and nufft1B_per_item / nufft3B_per_item: a batched transform is the same linear map on "
+             "every batch item (previously oracle-only C06:batch). "
+             "New correspondence stream 'identity': matrices of the real nufft / nufft_adjoint (1-3 D) against NUDFT x apodisation x "
+             "kernel sum built from the driver's window data (Model/C06 kernelArgs on Gen.interp1, = kernelSum by kernelArgs_spec) at 1e-9 "
+             "(observed 6e-14). os_sites_agree / oversampLen_ge / toep_embed_len proofs made robust to commuting the product inside ceil. "
              "Tie: Gen/NufftFormulas.lean regenerated every run (formulas, stage order, beta, arguments handed to "
              "interpolate/gridding, toeplitz_psf, _normal_linop) + recorded real nufft/nufft_adjoint runs (os_shape, scaled coordinates, "
              "scalings at 1e-12).",
         note="Trusted: Lean kernel; translator gen_c07; float ceiling ties handled by evaluating the model at the effective rational "
              "oversamp fl(os*N)/N; accuracy bound, Kaiser-Bessel values and rounding are oracle-only; periodicity at 1e-6 is "
              "skipped at window-edge ties (exact arithmetic equality is the theorem). The concrete adjoint theorems assume real "
-             "apodisation weights (checked numerically) and a real-valued kernel; 3-D and batch axes are not written out (oracle). "
+             "apodisation weights (proved for the _apodize formula, whose shape the translator checks syntactically) and interpolation "
+             "weights that are a real function of the generated weight (covers separable real kernels); batch axes are modelled as one "
+             "flattened axis (what interpolate / gridding do); per-item action of resize / fft / _apodize on an unflattened batch shape is "
+             "oracle-only. The error identity is proved for the 1-D, batched 1-D, 2-D and batched 3-D pipelines (batched 2-D: identity stream only); the "
+             "Poisson (sum over aliases) form of S and the 3 % / 0.3 % bound on S for Kaiser-Bessel are not proved. "
              "The Toeplitz theorems are about the exact kernel: the accuracy of the psf COMPUTED by toeplitz_psf (approximate nufft of "
              "a unit sample, complex64) is oracle-only (A.N(x) vs A.H(A(x)) at oversamp=2, width 7/8 within 3e-4; clean maximum 2.6e-5); "
-             "N-d Toeplitz embedding (per-axis composition) not written out.",
+             "Toeplitz embedding with a batch axis not written out.",
         technique="Lean 4 proof of pipeline structure over translator-generated formulas + correspondence; accuracy measured by oracle",
         design="DESIGN.md §3 C06, §9"),
     "C10": dict(
